@@ -4,6 +4,7 @@ pub mod c02;
 pub mod c03;
 pub mod c04;
 pub mod c05;
+pub mod c06;
 pub mod c07;
 pub mod c09;
 pub mod c10;
@@ -44,6 +45,7 @@ pub fn run(ctx: &RunCtx) -> Option<PropResult> {
         "C03" => Some(c03::run(ctx)),
         "C04" => Some(c04::run(ctx)),
         "C05" => Some(c05::run(ctx)),
+        "C06" => Some(c06::run(ctx)),
         "C07" => Some(c07::run(ctx)),
         "C09" => Some(c09::run(ctx)),
         "C10" => Some(c10::run(ctx)),
@@ -124,6 +126,7 @@ pub fn replay(ctx: &RunCtx, path: &std::path::Path) -> i32 {
 fn replay_other(ctx: &RunCtx, phase: &str, case: &serde_json::Value, dir: &std::path::Path) -> Option<Result<crate::runner::CaseOut, crate::interp::Failure>> {
     match ctx.prop.as_str() {
         "C05" => c05::replay_other(phase, case, dir, &ctx.findings),
+        "C06" => c06::replay_other(phase, case, dir, &ctx.findings),
         "C07" => c07::replay_other(phase, case, dir, &ctx.findings),
         "C09" => c09::replay_other(phase, case, dir),
         "C10" => c10::replay_other(phase, case, dir),
